@@ -68,7 +68,7 @@ def _text_chunk(items):
     return bad
 
 
-MULTILINE = ['a\nb', 'a\n', '\nb', 'a\n\nb', 'a b\r\nc\r\n', 'a\rb', 'a\n\n']
+MULTILINE = ['a\nb', 'a\n', '\nb', 'a\n\nb', 'a b\r\nc\r\n', 'a\rb', 'a\n\n', 'a\n\tb', '\tq\nr\n\t']      # the last two: lines of the text that start with a tab
 
 
 def _multiline_cases():
@@ -84,17 +84,17 @@ def _multiline_cases():
             n += 1
             case = {'abbr': abbr, 'payload': p, 'position': 'multi-line text', 'format': False, 'expected_text': want}
             try:
-                out = emmet.expand(abbr, {'options': {'output.format': False}})
+                out = emmet.expand(abbr, {'options': {'output.format': False, 'output.indent': '  '}})      # the formatter indents with blanks, a tab is text
                 if el is None:
                     lines = out.split('\n')
                 else:
                     xs = [k for k in ph.tree(ph.lex(out)) if k['n'] == el]
                     lines = xs[0]['t'].split('\n')
-                    if lines[0].strip('\t') != '' or lines[-1].strip('\t') != '':
+                    if lines[0].strip(' ') != '' or lines[-1].strip(' ') != '':
                         bad.append(('text-verbatim', dict(case, actual_text=lines, output=out)))
                         continue
                     lines = lines[1:-1]
-                got = [l.lstrip('\t') for l in lines]
+                got = [l.lstrip(' ') for l in lines]
             except Exception as ex:
                 bad.append(('expand raised', dict(case, exception=type(ex).__name__)))
                 continue
